@@ -1,10 +1,16 @@
 (* C05 — abs() maps any path to a clean absolute path, identically on both backends.
    cwd = abs_of ns: the clean absolute path with names ns.  abs_spec (Path/AbsFacts.v) is the
    statement's closed form: clean(join(cwd, trim_protocol(expand s))), failing only for an empty
-   path, a failed expansion, or ".." climbing above the root. *)
+   path, a failed expansion, or ".." climbing above the root.
+   Last clause (Memfs/v): every call of the alphabet reads its path arguments through this resolution only, so
+   replacing an argument by the string abs returns for it changes neither the result nor the state - in every state a
+   history reaches (the working directory and every remembered link target always consist of proper names, Memfs/v).
+   An abs result that still contains '~' or '$' (a variable whose value contains one) would be expanded a second time by
+   the second reading; for such arguments the re-spelling leaves the argument as it is. *)
 From Coq Require Import List NArith.
 From RV Require Import Base.Str Base.PathLex Base.PathLexFacts Base.SpanFacts Path.Clean Path.CleanSpec
   Path.Helpers Path.Expand Path.Abs Path.AbsFacts.
+From RV Require Import Memfs.State Memfs.Ops Memfs.Step Memfs.WfMore Memfs.CopyFile Memfs.CwdInv Memfs.Spelling.
 
 Theorem C05_abs_is_spec : forall ns env s, Forall is_name ns -> abs (abs_of ns) env s = abs_spec ns env s.
 Proof. exact abs_is_spec. Qed.
@@ -32,3 +38,25 @@ Theorem C05_clean_join_relative : forall ns q, Forall is_name ns -> is_rooted q 
   clean_spec (join (abs_of ns) q) = abs_of (firstn (length ns - d_ups d) ns ++ d_names d).
 Proof. exact clean_join_relative. Qed.
 Print Assumptions C05_clean_join_relative.
+
+(* any spelling of a path argument behaves like the call with abs(path) *)
+Theorem C05_spelling_independent : forall env m o, names_ok (m_cwd m) ->
+  step env m (respell env m o) = step env m o.
+Proof. exact spelling_independent. Qed.
+Print Assumptions C05_spelling_independent.
+
+Theorem C05_spelling_independent_reachable : forall env os m o, run_ops env mfs_init os = Some m ->
+  step env m (respell env m o) = step env m o.
+Proof. exact spelling_independent_reachable. Qed.
+Print Assumptions C05_spelling_independent_reachable.
+
+(* the argument the re-spelled call carries resolves to the same location *)
+Theorem C05_resolve_abs_str : forall env m s, names_ok (m_cwd m) ->
+  resolve env m (abs_str env m s) = resolve env m s.
+Proof. exact resolve_abs_str. Qed.
+Print Assumptions C05_resolve_abs_str.
+
+(* the working directory and every target a link remembers consist of proper names in every reachable state *)
+Theorem C05_reachable_cwd : forall env os m m', cwd_inv m -> run_ops env m os = Some m' -> cwd_inv m'.
+Proof. exact reachable_cwd. Qed.
+Print Assumptions C05_reachable_cwd.
